@@ -135,6 +135,11 @@ def check(case):
     else:
         res.see("hook_missing")
     plateau = False
+    if hook is not None and any(hook[k] != final[k] for k in ("pred", "root", "density")):
+        # the last clustering call did not produce the state the fit left (an implementation may keep an earlier candidate's forest):
+        # its adjacency snapshot says nothing about the final forest -> the arc-membership clause is undecided for this case
+        res.see("last_clustering_call_is_not_the_final_state")
+        hook = None
     if hook is not None:
         out = judge(res, hook, kind, adj=hook["adj"], tag="[at final clustering] ")
         if res.violations:
